@@ -172,6 +172,8 @@ class Net(object):
     self.phys = set()            # directed links (d1, p1, d2, p2) that are up
     self.events = []             # LinkEvents: ["add"/"rem", d1, p1, d2, p2]
     self.flood_rx = None         # per-dpid arrival counter during a flood test
+    self.carried = {}            # wire -> the last discovery probe (frame bytes) it carried
+    self.flight = {}             # wire -> a delayed copy of a probe that is still on its way
     self.frame_budget = 0
     self.lldp_entry = lldp_entry
     self._reset_controller(disc_opts or {}, st_opts or {})
@@ -314,7 +316,29 @@ class Net(object):
       et = struct.unpack("!H", fr[12:14])[0]
       if et == FLOOD_FRAME_TYPE:
         self.flood_rx[dst[2]] = self.flood_rx.get(dst[2], 0) + 1
+    elif fr[12:14] == b"\x88\xcc":
+      self.carried[dst] = fr
     self.nodes[dst[2]].sw.rx_packet(ethernet(raw=fr), dst[3])
+
+  # ---------------------------------------------------------- probes in flight
+  def delay(self, l):
+    """a copy of the last probe that travelled over wire l is delayed on its way (in the network / in the
+    receiving switch); False when no probe has travelled over l yet"""
+    l = tuple(l)
+    if l not in self.carried:
+      return False
+    self.flight[l] = self.carried[l]
+    return True
+
+  def late(self, l):
+    """the delayed probe now arrives at the far end of wire l (whatever happened to the wire or to the
+    sending switch meanwhile); the receiving switch hands it to the controller as usual"""
+    l = tuple(l)
+    fr = self.flight.pop(l)
+    if self.nodes[l[2]].con is None:
+      raise SimError("late probe for a switch without OpenFlow session")
+    self.nodes[l[2]].sw.rx_packet(ethernet(raw=fr), l[3])
+    self._settle()
 
   # ---------------------------------------------------------- environment
   def switch_up(self, dpid):
